@@ -1,6 +1,6 @@
 (* C03 - operands resolve to the same constant, name or variable CPython resolves. *)
 From Xdis Require Import Base.Prelude Base.Result Base.OpTable Model.Instr Spec.Dis Model.Resolve Gen.Opcodes Gen.RefOpcodes
-  Proofs.InstrProofs Proofs.C02Tables Proofs.ResolveProofs.
+  Model.ResolveChecks Proofs.InstrProofs Proofs.C02Tables Proofs.ResolveProofs.
 
 (* For the nine versions with an installed interpreter, every opcode (0..255), EVERY operand value
    and every set of tables (constants, names, locals, cells, frees of any length) in which no free
